@@ -569,6 +569,18 @@ def world_rule(pid):
             worse = (kind in ("wd.dep", "wd.rep") and tok_i < tok_m) or (kind in ("wd.wd", "wd.bor") and tok_i > tok_m)
             if worse:
                 return f"{pid} a {NAMES[kind]} books exactly what the exact accounting books for {tok_m} tokens but moves {tok_i}; {ctx}: {op}"
+        if pid in ("C01", "C03") and tok_i == tok_m and slots_i != slots_m:
+            # the same tokens moved, another booking: compare the position in the bank operated on (bank key = args[127])
+            bkey = int(args[127])
+            def shares(sl):
+                for k in range(16):
+                    if sl[k * 7] == 1 and sl[k * 7 + 1] == bkey:
+                        return sl[k * 7 + 3], sl[k * 7 + 4]
+                return 0, 0
+            (ai, li), (am, lm) = shares(slots_i), shares(slots_m)
+            if (ai > am and li <= lm) or (li < lm and ai >= am):
+                return (f"{pid} a {NAMES[kind]} that moves the same {tok_i} tokens as the exact accounting leaves the position with deposit / debt shares "
+                        f"({ai}, {li}) where the exact accounting books ({am}, {lm}): value is credited that was not paid for; {ctx}: {op}")
         if pid == "C06" and (bank_i[0:2] != bank_m[0:2] or bank_i[16] != bank_m[16]):
             return f"C06 a successful {NAMES[kind]} leaves share values / accrual clock {bank_i[0:2]} @ {bank_i[16]} where an accrual to the current time first gives {bank_m[0:2]} @ {bank_m[16]}; {ctx}: {op}"
         if pid == "C12" and win_i != win_m:
